@@ -153,7 +153,15 @@ def _filters_tombstones(it):
 def _body_tests_type(lp):
     for s in lp.body[:1]:
         if isinstance(s, ast.If):
-            t = norm(s.test, 200)
+            # `if a: if b: ...` (nothing else in the arm) tests `a and b`
+            tests = [s.test]
+            cur = s
+            while len(cur.body) == 1 and isinstance(cur.body[0], ast.If) and not cur.body[0].orelse and not cur.orelse:
+                cur = cur.body[0]
+                tests.append(cur.test)
+            t = ' and '.join(norm(x, 200) for x in tests)
+            if 'isinstance(child, X12SegmentDataNode) and child.seg_data is not None' in t:
+                return True
             if '.type is not None' in t or '.type is None' in t or ".type == 'seg'" in t or '.seg_data is not None' in t:
                 return True
     return False
@@ -249,7 +257,7 @@ def r3_tombstones(ctx):
                     ok = cleanup_first
                     yield Ob(km('x12context:%s.%s indexes children by range' % (cname, f.name)), ok, ctx.loc(m, it),
                              '' if ok else 'index loop over children without a preceding _cleanup()')
-    if n_sites < 10:
+    if n_sites < 7:
         raise AnalysisError('x12context: only %d iteration sites over children found' % n_sites)
 
 
@@ -264,28 +272,71 @@ def r5_insertion(ctx):
     first = f.body[0] if not (isinstance(f.body[0], ast.Expr) and isinstance(f.body[0].value, ast.Constant)) else f.body[1]
     ok = isinstance(first, ast.Expr) and isinstance(first.value, ast.Call) and A.call_target(first.value) == ('self', '_cleanup')
     yield Ob('x12context:X12DataNode._get_insert_idx sweeps tombstones first', ok, ctx.floc(f), '' if ok else 'first statement %s' % norm(first))
-    # the one comparison between a sibling's map position and the new node's: true for an earlier or equal position
-    cmp_ = []
-    for n in ast.walk(f):
-        if isinstance(n, ast.Compare) and len(n.ops) == 1:
-            sides = [n.left, n.comparators[0]]
-            sib = [x for x in sides if norm(x).endswith('x12_map_node.pos')]
-            new = [x for x in sides if norm(x) in ('map_idx', 'x12_node.pos')]
-            if len(sib) == 1 and len(new) == 1:
-                e = A.abstract(n, {ast.unparse(sib[0]): 'SIB', ast.unparse(new[0]): 'NEW'})
-                cmp_.append((n, e))
-    ok = len(cmp_) == 1 and [bool(A.ev(cmp_[0][1], {'SIB': a, 'NEW': 20})) for a in (10, 20, 30)] == [True, True, False]
-    yield Ob('x12context:X12DataNode._get_insert_idx goes after siblings of the same or an earlier map position', ok, ctx.floc(f),
-             '' if ok else 'comparison is %s' % [norm(c[0]) for c in cmp_])
-    rets = {A.canon(n.value) for n in ast.walk(f) if isinstance(n, ast.Return) and n.value is not None}
-    ok = rets == {'(1+idx)', 'len(self.children)'}
-    require_idiom(ok, 'c10.py:231')
-    yield Ob('x12context:X12DataNode._get_insert_idx returns the slot after the last such sibling', ok, ctx.floc(f), '' if ok else 'return logic changed')
+    # the index it returns, decided by constant propagation through the function for every list of sibling positions (up to
+    # four siblings over three positions) and every new position: the slot after the last sibling whose map position is
+    # the same or earlier - in front of all of them when every sibling comes later in the map
+    from ..absint import traces, NotClosedTest
+    import itertools as _it
+    g = ctx.cfg(f)
+
+    class _Pos(object):
+        _sa_model = True
+
+        def __init__(self, pos, id='A'):
+            self.pos = pos
+            self.id = id         # (the order among siblings is by map position alone: ids must not influence it)
+
+        def __hash__(self):
+            return hash(('pos', self.pos))
+
+        def __eq__(self, o):
+            return isinstance(o, _Pos) and o.pos == self.pos
+
+    class _Sib(object):
+        _sa_model = True
+
+        def __init__(self, i, pos):
+            self.i = i
+            self.x12_map_node = _Pos(pos, 'Z%d' % i)
+            self.type = 'seg'
+
+        def __hash__(self):
+            return hash(('sib', self.i))
+
+        def __eq__(self, o):
+            return isinstance(o, _Sib) and o.i == self.i
+    bad = None
+    runs = 0
+    for n_sib in range(0, 5):
+        for poss in _it.combinations_with_replacement((10, 20, 30), n_sib):
+            kids = tuple(_Sib(i, p_) for i, p_ in enumerate(poss))
+            for new in (5, 10, 15, 20, 25, 30, 35):
+                env = {'self.children': kids, 'x12_node': _Pos(new), 'x12_node.pos': new}
+                try:
+                    res = traces(g, env, lambda c: None, returns=True)
+                except NotClosedTest as e:
+                    raise AnalysisError('X12DataNode._get_insert_idx: a test cannot be decided for sibling positions %s: %s' % (list(poss), e))
+                runs += 1
+                got = {a_[1][0] for tr, _e in res for a_ in tr if a_[0] == '@return'}
+                want = max([i + 1 for i, p_ in enumerate(poss) if p_ <= new] or [0])
+                if got != {want} and bad is None:
+                    bad = (list(poss), new, sorted(got, key=repr), want)
+    yield Ob('x12context:X12DataNode._get_insert_idx goes after siblings of the same or an earlier map position', bad is None, ctx.floc(f),
+             '' if bad is None else 'with siblings at map positions %s a node of position %s is inserted at index %s; the map orders it at index %s' % bad,
+             note='%d combinations' % runs)
     for q, var in (('X12LoopDataNode.add_segment', 'x12_seg_node'), ('X12LoopDataNode.add_node', 'data_node.x12_map_node'), ('X12LoopDataNode._add_loop_node', 'x12_loop_node')):
         fn = ctx.func('x12context', q)
         gi = [c for c in A.calls_in(fn) if A.call_target(c) == ('self', '_get_insert_idx')]
         ins = [c for c in A.calls_in(fn) if A.call_target(c) == ('self.children', 'insert')]
-        ok = len(gi) == 1 and norm(gi[0].args[0]) == var and len(ins) == 1 and path_of(ins[0].args[0]) == 'child_idx'
+        ok = False
+        if len(gi) == 1 and len(ins) == 1 and isinstance(ins[0].args[0], ast.Name):
+            # the index inserted at is the one _get_insert_idx returned (held in a local bound once) ...
+            defs = [st for st in ast.walk(fn) if isinstance(st, ast.Assign) and len(st.targets) == 1 and path_of(st.targets[0]) == ins[0].args[0].id]
+            idx_ok = len(defs) == 1 and defs[0].value is gi[0]
+            # ... for the map node of the very node that is inserted
+            arg = norm(gi[0].args[0])
+            arg_ok = arg in (var, norm(ins[0].args[1]) + '.x12_map_node')
+            ok = idx_ok and arg_ok
         yield Ob('x12context:%s inserts at the index computed for the node\'s own map position' % q, ok, ctx.floc(fn),
                  '' if ok else 'index from %s, insert at %s' % ([norm(c) for c in gi], [norm(c) for c in ins]))
     # membership checks of add_segment / add_loop / add_node
